@@ -3,7 +3,8 @@
    op 2  Plane.fit_tilt history: fit, then (add an OPD increment, fit)*
    op 3  tilt lists and shifts of the fields of several plane chains (Wavefront(tilt=) * planes ...),
          planes carrying either an explicit .tilt list or the result of a fit history
-   op 4  the OPD ramp standing for Tilt(x=a, y=b) on an m x n plane *)
+   op 4  the OPD ramp standing for Tilt(x=a, y=b) on an m x n plane
+   op 5  the window propagate_dft evaluates for a field with a given tilt shift, and the shift handed to dft2 *)
 From LV Require Import Extract.FieldCodec Model.Tilt.
 Require Import ExtrOcamlBasic.
 
@@ -81,6 +82,13 @@ Definition run (inp : list Z) : list Z :=
     | Some (a, b, dxr, dxc, m, n) =>
         if (m <? 0) || (n <? 0) then emalformed else
         0 :: earrq (mkArr (S := QS) m n (fun i j => opd_ramp a b dxr dxc (i - m / 2) (j - n / 2)))
+    | None => emalformed end
+  | 5 :: rest =>
+    match pall (e <- pextent ;; pr <- pZ ;; pc <- pZ ;; sr <- pQ ;; sc <- pQ ;; pret (e, pr, pc, sr, sc)) rest with
+    | Some (e, pr, pc, sr, sc) =>
+        0 :: eopt (fun w : (Z * Z) * (Z * Z) * (Qc * Qc) =>
+                     let '((ir, ic), (isr, isc), (shr, shc)) := w in [ir; ic; isr; isc] ++ eQ shr ++ eQ shc)
+                  (tilted_window e pr pc sr sc)
     | None => emalformed end
   | _ => emalformed
   end.
